@@ -9,6 +9,10 @@ claimed = {
  'C01': ('exploration', 'DESIGN.md §4 C01', 'Seeded simulated histories (all FS ops incl. symlinks and handle groups, swarm over pipeline configurations, record sizes and adversarial name universes) with restart faults (reopen over the same index, rebuild from the tape alone) injected as operations; after every call the live tree and contents are compared with a reopened and a rebuilt instance. Sampling, not proof: the right level because the property quantifies over unbounded histories and the oracle needs no model.', 'Observation through the afero API; SQLite durability trusted; tape-device (non-regular) drive paths not simulated.', 'deterministic simulation, restart injection, differential observation live/reopen/rebuild'),
  'C05': ('exploration', 'DESIGN.md §4 C05', 'Drive-seam monitor in the simulator: after every call of seeded histories (successful and rejected calls, restarts) the previous tape image must be a prefix of the new one, every individual write must land at end-of-file, rejected calls append nothing, the tape is whole 512-byte blocks and an independent archive/tar scan (restart after trailers) iterates it completely; thorough also feeds it to GNU tar.', 'Regular-file drive only; GNU tar 1.34 as second reader in thorough.', 'deterministic simulation with drive-seam invariant monitor + independent tar scan'),
  'C13': ('exploration', 'DESIGN.md §4 C13', 'Namespace invariants monitored after every call of seeded histories: live rows = entries reached by walking from the root; every entry has a live directory parent; Readdir/Readdirnames(n) for n in {-1,0,1,2,3,k,k+1} list only children, each once, all for n<=0, at most n otherwise; every listed entry stats/opens with the listed kind and size.', 'Live entries are read from the index store (GetHeaders).', 'deterministic simulation with namespace invariant monitor'),
+ 'C02': ('exploration', 'DESIGN.md §4 C02', 'Lock-step refinement of the real filesystem against an executable reference filesystem (RefFS) inside the simulator: seeded histories over adversarial name universes (reused names, SQL wildcards, suffix-like dots, spaces, non-ASCII, >100-byte components), every OpenFile flag set, contents of 0..several records, restart faults (reopen/rebuild) interleaved; each call\'s outcome/error class and the whole observed tree are compared after every call. Sampling; the model makes it able to see wrong-but-consistent behaviour that self-comparison (C01) cannot.', 'RefFS = POSIX/afero in-memory semantics written for this task; outputs on which references disagree are masked (see evidence assumptions); KF1 (suffix-like names) is an open known finding with a generator exclusion.', 'deterministic simulation, refinement against executable reference model (RefFS)'),
+ 'C10': ('fault_enumeration', 'DESIGN.md §4 C10', 'For each generated short history a fault-free pilot counts the calls through every simulated seam; then every single fault point (call, seam, k) is executed: k-th drive write (also as short write), drive read, drive seek, drive stat/open system calls (through the overlay hooks, so the real TapeManager error paths run), k-th index-store call, write-cache factory/read/write/seek/size/truncate; each faulted run ends with probe calls. The scheduler\'s lock table gives exact hang detection; panics in any goroutine are caught as process crashes. Exhaustive per history (sampled down above 250/1500 points), sampled over histories; thorough adds fault pairs.', 'Index faults fail before touching the DB; drive Close errors not injected; nothing is required about what a faulted call returns.', 'deterministic simulation with exhaustive single-fault enumeration per history'),
+ 'C12': ('exploration', 'DESIGN.md §4 C12', 'Generated trees over adversarial alphabets (_ % . space multi-byte quotes, prefix-related siblings) followed by 1-3 RemoveAll/Rename calls on chosen directories (into itself, onto existing directories, sibling and formerly used names); RefFS equality of the whole tree after every call and after a rebuild from the tape.', 'RefFS as C02.', 'deterministic simulation, refinement against RefFS + rebuild restart'),
+ 'C14': ('exploration', 'DESIGN.md §4 C14', 'Generated handle programs (Read/ReadAt/Seek with all whences and negative..beyond-end offsets/Write/WriteAt/WriteString/Truncate/Sync/Stat, 1-30 calls) on files of 0..several records for every OpenFile flag set, both write caches and a pipeline swarm; every count, offset, byte and EOF is compared with a byte-array reference handle; after Close the entry is stat-ed and read back. The restore goroutine behind read mode is a scheduled task with seeded preemption at the drive seam, which is how the schedule-dependent reader-reuse defect (F23) was found.', 'Cursor after ReadAt/WriteAt, WriteAt on O_APPEND handles and the cursor after an empty write on O_APPEND are unspecified (os.File and in-memory files disagree) and masked.', 'deterministic simulation, refinement against byte-array reference handle, seeded scheduling of the restore goroutine'),
 }
 checks = []
 for i in ids:
